@@ -215,6 +215,18 @@ if false {
 	func(r *simrt.RNG, id int) string {
 		return "add_key(seen_acc, acc)\nadd_key(seen_c, c)\nadd_key(seen_j, j)\nadd_key(seen_q, q)\nif l != nil {\n  add_key(seen_l, 1)\n}\nif m != nil {\n  add_key(seen_m, 1)\n}\n"
 	},
+	// accumulators kept in list / map literals and updated from their own previous content
+	// (a literal evaluated once and shared between runs would carry the sums over)
+	func(r *simrt.RNG, id int) string {
+		switch r.Intn(3) {
+		case 0:
+			return fmt.Sprintf("acc = [0, %d]\nfor i = 0; i < 3; i = i + 1 {\n  acc[0] = acc[0] + acc[1] + i\n}\nadd_key(total%d, acc[0])\n", 1+r.Intn(5), id)
+		case 1:
+			return fmt.Sprintf("cnt = {\"n\": 0, \"k\": [1, 2]}\ncnt[\"n\"] = cnt[\"n\"] + %d\ncnt[\"k\"][0] = cnt[\"k\"][0] * 2\nadd_key(cn%d, cnt[\"n\"])\nadd_key(ck%d, cnt[\"k\"][0])\n", 1+r.Intn(3), id, id)
+		default:
+			return fmt.Sprintf("seen = [\"a\", \"b\"]\nseen[1] = seen[1] + seen[0]\nadd_key(seen%d, seen[1])\nnums = [1.5, 2, 3]\nnums[2] = nums[2] + nums[0]\nadd_key(num%d, nums[2])\n", id, id)
+		}
+	},
 	// infinite loop: only useful with cancellation
 	func(r *simrt.RNG, id int) string {
 		return fmt.Sprintf("c = 0\nfor ;; {\n  c = c + 1\n  if c > %d {\n    break\n  }\n}\nadd_key(spins, c)\n", 5+r.Intn(40))
